@@ -3,6 +3,7 @@ package destroy
 import (
 	"fmt"
 	"math/big"
+	"os"
 	"strings"
 	"testing"
 	"time"
@@ -22,6 +23,7 @@ import (
 	itu "github.com/EscanBE/evermint/v12/integration_test_util"
 	itutiltypes "github.com/EscanBE/evermint/v12/integration_test_util/types"
 	evmkeeper "github.com/EscanBE/evermint/v12/x/evm/keeper"
+	evmtypes "github.com/EscanBE/evermint/v12/x/evm/types"
 
 	. "verifharness/hx"
 )
@@ -326,7 +328,10 @@ func (w *world) pickHot(cands []common.Address) {
 	w.side.Count("hot:" + strings.SplitN(w.desc[w.hot], " ", 2)[0])
 }
 
-func caseA(t *testing.T, c *Chain, cpc *cpcEnv, idx int, r *Rng, side *Sidecar, cases *CasesFile) {
+// nBig > 0: the case is a "big wipe" - the first planted contract holds exactly `nBig` storage slots (written through the
+// keeper before the transaction: no gas, no interpreter) when it is destroyed (Suicide + commit, CreateAccount over it, or
+// its own SELFDESTRUCT program); the counts sit around the batch-like boundaries 128 / 256 (see bigSlotCounts).
+func caseA(t *testing.T, c *Chain, cpc *cpcEnv, idx int, r *Rng, side *Sidecar, cases *CasesFile, nBig int) {
 	now := blockTimes[r.Intn(len(blockTimes))].Add(time.Duration(r.Intn(1000)) * time.Second)
 	ctx, _ := c.Ctx().WithBlockTime(now).CacheContext()
 	ctx = ctx.WithEventManager(sdk.NewEventManager())
@@ -398,14 +403,21 @@ func caseA(t *testing.T, c *Chain, cpc *cpcEnv, idx int, r *Rng, side *Sidecar, 
 		}
 	}
 	// the programs over this universe
-	wipe := r.Chance(22)
+	wipe := r.Chance(22) || nBig > 0
 	for i, a := range progs {
 		w.plantRole(a, rContract, []byte{0})
 		code, d := w.program(a, specs, 0)
 		if wipe && i == 0 {
 			code, d = w.wipeProgram(callers[0])
-			w.plantStorage(a)
-			w.plantStorage(a)
+			if nBig > 0 {
+				code, d = (&asm{}).selfdestruct(callers[0]).b, "WIPE selfdestruct->caller"
+				w.plantBigStorage(a, nBig)
+				d = fmt.Sprintf("%s slots=%d", d, nBig)
+				side.Count(fmt.Sprintf("scenario_big_wipe:slots=%d", nBig))
+			} else {
+				w.plantStorage(a)
+				w.plantStorage(a)
+			}
 			side.Count("scenario_wipe:" + boundaryLabel(a))
 		}
 		w.plantCode(a, code)
@@ -431,7 +443,20 @@ func caseA(t *testing.T, c *Chain, cpc *cpcEnv, idx int, r *Rng, side *Sidecar, 
 			run.do(false, v, d, func() { run.db.Suicide(v) })
 		case 1:
 			d = "CreateAccount " + w.desc[v]
-			run.do(false, v, d, func() { run.db.CreateAccount(v) })
+			if run.do(false, v, d, func() { run.db.CreateAccount(v) }) {
+				// CreateAccount over an existing account destroys it first (DestroyAccount, at once, not at commit): the
+				// re-made account starts with nothing of the old one in the x/evm store
+				left, code := 0, !evmtypes.IsEmptyCodeHash(c.App.EvmKeeper.GetCodeHash(run.db.GetCurrentContext(), v.Bytes()))
+				for _, kv := range rawScan(c, run.db.GetCurrentContext()) {
+					if len(kv.Key) >= 21 && kv.Key[0] == rawPfxStorage && common.BytesToAddress(kv.Key[1:21]) == v {
+						left++
+					}
+				}
+				if left > 0 || code {
+					side.Hit("C15/destroy/incomplete_destroy", fmt.Sprintf("case %d: CreateAccount over %s (%s): the account it replaced left %d storage slots (code hash left: %v) to the new one",
+						idx, v.Hex(), w.desc[v], left, code), &caseOut{Index: idx, Mode: "A", Now: now.Unix(), Uni: w.describe(), Actions: []string{d}})
+				}
+			}
 		default:
 			from := callers[r.Intn(2)]
 			d = "evm.Call " + w.desc[v] + " value 0"
@@ -444,6 +469,9 @@ func caseA(t *testing.T, c *Chain, cpc *cpcEnv, idx int, r *Rng, side *Sidecar, 
 		acts = append(acts, d)
 		side.Count("action:" + strings.Fields(d)[0])
 		nAct = r.Intn(4)
+		if nBig > 0 {
+			nAct = r.Intn(2) * r.Intn(3) // mostly nothing afterwards: the big wipe is what the case is about
+		}
 		onlyEvm = false
 	} else if r.Chance(16) {
 		acts = scriptedLocked(w, run, callers)
@@ -862,6 +890,7 @@ func finishCase(t *testing.T, idx int, mode string, run *run, acts []string, onl
 				}
 				if len(com.RawStor) > 0 {
 					side.Count("deleted-with-storage:" + boundaryLabel(a))
+					side.Count("deleted-with-storage-slots:" + slotBucket(len(com.RawStor)))
 				}
 				if drained[a] && !run.suicided[a] {
 					side.Count("scenario:drained_by_foreign_write_then_deleted_as_empty")
@@ -1147,6 +1176,75 @@ func caseB(t *testing.T, idx int, r *Rng, side *Sidecar, cases *CasesFile) {
 	finishCase(t, idx, "B", run, []string{d}, true, side, cases)
 }
 
+// ---------------------------------------------------------------- big storage
+
+// bigSlotCounts: how many storage slots the destroyed contract of the i-th big-wipe case holds. The counts sit on and
+// next to powers of two (a storage wipe done in rounds / pages / batches goes wrong at such a count, if anywhere) plus
+// a few between and far above. Quick tier: a handful per run (128+1 and 256+1 always, the rest rotates with the seed);
+// thorough tier: all of them, several times (destroyed in the three different ways).
+func bigSlotCounts(seed uint64, thorough bool) []int {
+	all := []int{129, 257, 1, 127, 128, 255, 256, 300, 64, 65, 512, 513, 1000}
+	if thorough {
+		var out []int
+		for k := 0; k < 3; k++ {
+			out = append(out, all...)
+		}
+		return append(out, 1024, 1025, 2049)
+	}
+	out := []int{129, 257}
+	rest := all[2:10]
+	for k := 0; k < 4; k++ {
+		out = append(out, rest[(int(seed%8)+3*k)%len(rest)])
+	}
+	return out
+}
+
+// plantBigStorage makes the account hold exactly n storage slots, written through the keeper (as genesis import and
+// earlier transactions would have left them): small consecutive keys, keccak-scattered keys and the two extreme keys.
+func (w *world) plantBigStorage(a common.Address, n int) {
+	k := w.c.App.EvmKeeper
+	var old []common.Hash
+	k.ForEachStorage(w.ctx, a, func(key, _ common.Hash) bool { old = append(old, key); return true })
+	for _, key := range old {
+		k.SetState(w.ctx, a, key, nil)
+	}
+	have := map[common.Hash]bool{}
+	set := func(key common.Hash) {
+		if len(have) < n && !have[key] {
+			have[key] = true
+			k.SetState(w.ctx, a, key, common.BigToHash(Bi(int64(1+len(have)%250))).Bytes())
+		}
+	}
+	set(common.Hash{})
+	set(common.BigToHash(maxKey))
+	scatter := w.r.Bool()
+	for i := 0; len(have) < n; i++ {
+		if scatter && i%2 == 1 {
+			set(ethcrypto.Keccak256Hash(a.Bytes(), Bi(int64(i)).Bytes()))
+		} else {
+			set(common.BigToHash(Bi(int64(1000 + i))))
+		}
+	}
+}
+
+func slotBucket(n int) string {
+	switch {
+	case n <= 1:
+		return "1"
+	case n < 127:
+		return "2-126"
+	case n <= 129:
+		return fmt.Sprintf("%d", n)
+	case n < 255:
+		return "130-254"
+	case n <= 257:
+		return fmt.Sprintf("%d", n)
+	case n < 1000:
+		return "258-999"
+	}
+	return "1000+"
+}
+
 // ---------------------------------------------------------------- the driver
 
 func TestDriverDestroy(t *testing.T) {
@@ -1164,12 +1262,17 @@ func TestDriverDestroy(t *testing.T) {
 	cases := NewCases(dir, "From Coq Require Import List ZArith Bool.\nFrom Evm Require Import Destroy DestroyX CorrBase CorrDestroy.", "destroy_mismatches")
 	c := NewChain(t, time.Time{})
 	cpc := deployCpcs(t, c)
+	bigs := bigSlotCounts(seed, os.Getenv("VERIF_TIER") == "thorough")
 	for i := 0; i < n; i++ {
 		r := rng.Fork(uint64(i))
 		if i%8 == 7 {
 			caseB(t, i, r, side, cases)
 		} else {
-			caseA(t, c, cpc, i, r, side, cases)
+			nBig := 0
+			if i%8 == 3 && i/8 < len(bigs) {
+				nBig = bigs[i/8]
+			}
+			caseA(t, c, cpc, i, r, side, cases, nBig)
 		}
 	}
 	cases.Write(t, 40)
